@@ -131,7 +131,7 @@ func sameLoad(a, b ssa.Value) bool {
 		}
 		fa, ok1 := ua.X.(*ssa.FieldAddr)
 		fb, ok2 := ub.X.(*ssa.FieldAddr)
-		if ok1 && ok2 && fa.Field == fb.Field && fa.X == fb.X {
+		if ok1 && ok2 && fa.Field == fb.Field && (fa.X == fb.X || sameLoad(fa.X, fb.X)) {
 			return true
 		}
 		// s[i] vs s[i]: same index value over the same slice expression
@@ -356,6 +356,14 @@ func collectPanicSites(w *World, f *ssa.Function) []panicSite {
 						s.ok, s.why = true, "divisor guarded non-zero"
 					}
 					add(s)
+				case c.Pkg == "cosmossdk.io/math" && c.Recv == "Int" && c.Name != "IsNil" && len(args) > 0 && maybeUnsetInt(args[0]):
+					// a math.Int that is a field of a hand-written struct may still be the zero value (nil big.Int):
+					// every method but IsNil dereferences it
+					s := panicSite{class: "nil-int", desc: "Int." + c.Name + " on " + fieldDesc(args[0]), pos: x.Pos()}
+					if guardedAgainstZeroInt(x, args[0]) {
+						s.ok, s.why = true, "compared with the zero value first"
+					}
+					add(s)
 				case strings.HasPrefix(c.Name, "Must") || (c.Pkg == "github.com/VolumeFi/whoops" && c.Name == "Assert"):
 					s := panicSite{class: "must", desc: c.String(), pos: x.Pos()}
 					if isCodecRecv(c) && (c.Name == "MustMarshal" || c.Name == "MustUnmarshal" || c.Name == "MustMarshalJSON" || c.Name == "MustUnmarshalJSON" || c.Name == "MustMarshalLengthPrefixed") {
@@ -552,6 +560,7 @@ var c09Triage = map[string]string{
 	"(x/valset/keeper.Keeper).isNewSnapshotWorthy|div|LegacyDec.QuoInt":                                                                                              "loop body runs only for validators of the snapshot, whose TotalShares is the positive sum of their bonded tokens",
 	"(x/valset/keeper.Keeper).isNewSnapshotWorthy|div|LegacyDec.QuoInt#2":                                                                                            "loop body runs only for validators of the snapshot, whose TotalShares is the positive sum of their bonded tokens",
 	"(*x/evm/types.ValidatorBalancesAttestation).Keccak256WithSignedMessage|parallel-index|slice indexed by the induction variable of a loop over a different slice": "the only constructor, CheckExternalBalancesForChain, appends to ValAddresses and HexAddresses in the same statement group (lockstep); the message type is not user-submittable",
+	"(*util/libcons.consensusPower).consensus|nil-int|Int.Mul on consensusPower.totalPower":                                                                          "every consensusPower is declared and immediately given its total (setTotal(snapshot.TotalShares)) before add/consensus are called; snapshots always carry TotalShares",
 	"(x/valset/keeper.Keeper).isNewSnapshotWorthy|narrow|LegacyDec.MustFloat64()":                                                                                    "absolute difference of two ratios in [0,1]",
 }
 
@@ -810,4 +819,99 @@ func c09TriageCond(key string) func(w *World) (bool, string) {
 		}
 		return true, ""
 	}
+}
+
+// maybeUnsetInt: v is a load of a math.Int field of a struct declared in util/libcons (consensusPower,
+// Result): values of these types are created with `var` / partial literals, so the field can be the zero
+// value.
+func maybeUnsetInt(v ssa.Value) bool {
+	nm, base := loadedField(v)
+	if nm == "" || base == nil {
+		return false
+	}
+	nt := namedOf(derefType(base.Type()))
+	return nt != nil && nt.Obj().Pkg() != nil && strings.HasSuffix(nt.Obj().Pkg().Path(), "util/libcons")
+}
+
+func fieldDesc(v ssa.Value) string {
+	nm, base := loadedField(v)
+	if base == nil {
+		return nm
+	}
+	if nt := namedOf(derefType(base.Type())); nt != nil {
+		return nt.Obj().Name() + "." + nm
+	}
+	return nm
+}
+
+func isZeroValueLoad(v ssa.Value) bool {
+	if c, ok := canon(v).(*ssa.Const); ok && c.Value == nil {
+		if _, isStruct := c.Type().Underlying().(*types.Struct); isStruct {
+			return true // the aggregate zero constant T{}
+		}
+	}
+	u, ok := v.(*ssa.UnOp)
+	if !ok || u.Op != token.MUL {
+		return false
+	}
+	al, ok := u.X.(*ssa.Alloc)
+	if !ok {
+		return false
+	}
+	for _, r := range *al.Referrers() {
+		if st, ok := r.(*ssa.Store); ok && st.Addr == ssa.Value(al) {
+			return false
+		}
+	}
+	return true
+}
+
+// guardedAgainstZeroInt: the call is dominated by `field != zero-value`, or the function initialises the
+// field on the `field == zero-value` edge before the use.
+func guardedAgainstZeroInt(in ssa.Instruction, recv ssa.Value) bool {
+	for _, fa := range FactsAt(in) {
+		// `x != T{}` is normalised like a nil test (the zero constant has no value)
+		if fa.Kind == FNonNil && (canon(fa.V) == canon(recv) || sameLoad(fa.V, recv)) {
+			return true
+		}
+		if fa.Kind != FCmp || fa.Op != token.NEQ {
+			continue
+		}
+		for _, pr := range [][2]ssa.Value{{fa.X, fa.Y}, {fa.Y, fa.X}} {
+			if (canon(pr[0]) == canon(recv) || sameLoad(pr[0], recv)) && isZeroValueLoad(pr[1]) {
+				return true
+			}
+		}
+	}
+	nm, _ := loadedField(recv)
+	for _, b := range in.Parent().Blocks {
+		if len(b.Instrs) == 0 {
+			continue
+		}
+		iff, ok := b.Instrs[len(b.Instrs)-1].(*ssa.If)
+		if !ok {
+			continue
+		}
+		bo, ok := iff.Cond.(*ssa.BinOp)
+		if !ok || bo.Op != token.EQL {
+			continue
+		}
+		match := false
+		for _, pr := range [][2]ssa.Value{{bo.X, bo.Y}, {bo.Y, bo.X}} {
+			if n2, _ := loadedField(pr[0]); n2 == nm && nm != "" && isZeroValueLoad(pr[1]) {
+				match = true
+			}
+		}
+		if !match || !b.Dominates(in.Block()) {
+			continue
+		}
+		for _, i2 := range b.Succs[0].Instrs {
+			if st, ok := i2.(*ssa.Store); ok {
+				if fa, ok := st.Addr.(*ssa.FieldAddr); ok && fieldName(fa.X.Type(), fa.Field) == nm {
+					return true
+				}
+			}
+		}
+	}
+	return false
 }
